@@ -106,6 +106,9 @@ func (r *Registry) structSort(s *types.Struct, hint string) string {
 		return n
 	}
 	r.nstruct++
+	if s.NumFields() == 0 {
+		hint = "empty" // all empty structs share one sort: do not name it after whichever type was seen first
+	}
 	name := fmt.Sprintf("S%d_%s", r.nstruct, sanitize(hint))
 	r.structName[k] = name
 	r.structOf[name] = s
